@@ -937,24 +937,15 @@ class Ev:
         if k == "assign":
             lhs = x["l"]
             if lhs.get("k") == "index":
-                base = lhs["e"]
-                while base.get("k") in ("ref",) or (base.get("k") == "un" and base.get("op") == "Deref"):
-                    base = base["e"]
-                arr = self.eval(base, env, depth)
-                if isinstance(arr, Sym) and base.get("k") == "path" and base.get("res") == "local":
-                    arr = Arr([], arr)            # writes into an existing (opaque) container: base = its previous content
-                    env[base["id"]] = arr
-                if isinstance(arr, Arr):
-                    iv = self.eval(lhs["i"], env, depth)
-                    idx = list(iv.items) if isinstance(iv, Tup) else [iv]
-                    arr.writes.append({"idx": idx, "guards": tuple(self.guards), "loops": tuple(self.loops), "val": self.eval(x["r"], env, depth)})
-                    return
-                raise Unsupported("indexed write into a value that is not a zero-initialised local array at line %s" % x.get("ln"))
+                return self.index_write(lhs, self.eval(x["r"], env, depth), env, depth, x)
             self.assign(lhs, self.eval(x["r"], env, depth), env)
             return
         if k == "assignop":
             cur = self.eval(x["l"], env, depth)
-            self.assign(x["l"], self.arith(x["op"], cur, self.eval(x["r"], env, depth), x, depth), env)
+            val = self.arith(x["op"], cur, self.eval(x["r"], env, depth), x, depth)
+            if strip_refs(x["l"]).get("k") == "index":
+                return self.index_write(strip_refs(x["l"]), val, env, depth, x)
+            self.assign(x["l"], val, env)
             return
         if k == "mcall" and x["m"] == "clone_from" and x["recv"].get("k") == "path" and x["recv"].get("res") == "local":
             env[x["recv"]["id"]] = self.eval(x["args"][0], env, depth)
@@ -973,6 +964,20 @@ class Ev:
         if k == "ret":
             raise Return(self.eval(x["e"], env, depth) if "e" in x else Sym("unit"))
         self.eval(x, env, depth)
+
+    def index_write(self, lhs, val, env, depth, x):
+        base = strip_refs(lhs["e"])
+        arr = self.eval(base, env, depth)
+        if isinstance(arr, Sym) and base.get("k") == "path" and base.get("res") == "local":
+            arr = Arr([], arr)            # writes into an existing (opaque) container: base = its previous content
+            env[base["id"]] = arr
+        if isinstance(arr, Arr):
+            iv = self.eval(lhs["i"], env, depth)
+            idx = list(iv.items) if isinstance(iv, Tup) else [iv]
+            self.seq_no = getattr(self, "seq_no", 0) + 1
+            arr.writes.append({"idx": idx, "guards": tuple(self.guards), "loops": tuple(self.loops), "val": val, "seq": self.seq_no})
+            return
+        raise Unsupported("indexed write into a value that is not a zero-initialised local array at line %s" % x.get("ln"))
 
     def exec_while(self, x, env, depth):
         """`while C { B }` as the fixed iteration of its assigned locals: each becomes iterate(k; inits; C(@); steps(@))."""
@@ -1264,6 +1269,9 @@ class Ev:
             el = self.elem_of(recv)
             if el is not None:
                 return Seq(recv, el if callable(el) else (lambda idx, el=el: el))
+        if isinstance(recv, Rec) and recv.adt.endswith("ops::Range") and m in ("rev", "into_iter", "iter") and not args:
+            tag = "revrange" if m == "rev" else "range"
+            return Seq(Sym(tag, vkey(recv.fields.get("start")), vkey(recv.fields.get("end"))), lambda idx: idx)
         if isinstance(recv, Coll):
             if m in ("into_iter", "iter") and not args:
                 return recv.seq
